@@ -89,7 +89,7 @@ claimed = {
   technique=SIM + ": recorded-corpus mutation and seeded hostile streams against the real connection handler in-process, fragmenting/slow simulated connections, encode/stream/decode round trips",
   ref="3 C15"),
  "C18": dict(
-  text="A source store built by a seeded history (cache, files, tombstones, un-snapshotted cache) is backed up in full on the still open store (one run in three with an acknowledged write parked inside the backup's own cache snapshot), the stream restored with RestoreShard into a fresh store - the path a shard copy takes - and compared through both read paths, also after a restart of the destination; the source must be unchanged; 0-6 cuts of the stream (tar block boundaries, before the trailer, random offsets) are offered to RestoreShard and must not yield a 'successful' incomplete shard; a time-bounded export/import is compared with the model restricted to the range. RPC mode (1 run in 5): two real data nodes on the simulated network; node 1's shard is built by drawn writes with snapshot / compaction / delete steps, the real coordinator.Client sends a copy-shard request to node 2, which fetches the shard from node 1 with a backup-shard request over a connection that fragments, delays, resets or cleanly closes after a drawn number of bytes (or the source has no such shard); the request must return, and a copy reported complete must read exactly like the source.",
+  text="A source store built by a seeded history (cache, files, tombstones, un-snapshotted cache) is backed up in full on the still open store (one run in three with an acknowledged write parked inside the backup's own cache snapshot), the stream restored with RestoreShard into a fresh store - the path a shard copy takes - and compared through both read paths, also after a restart of the destination; the source must be unchanged; 0-6 cuts of the stream (tar block boundaries, before the trailer, random offsets) are offered to RestoreShard and must not yield a 'successful' incomplete shard; a time-bounded export/import is compared with the model restricted to the range. RPC mode (1 run in 5): two real data nodes on the simulated network; node 1's shard is built by drawn writes with snapshot / compaction / delete steps, the real coordinator.Client sends a copy-shard request to node 2, which fetches the shard from node 1 with a backup-shard request over a connection that fragments, delays, resets or cleanly closes after a drawn number of bytes (or the source has no such shard); the request must return, a copy reported complete must read exactly like the source, and a copy that failed under the fault is retried over a healthy network: the retry must succeed and be faithful whatever the failed attempt left behind.",
   note="store mode: the network between source and destination is a buffer cut at seeded offsets; the meta handler adding the owner after a copy is not run; incremental (since) backups are not explored (file mtimes are real time, the simulation clock is fake); truncated-stream acceptance and the broken time-bounded export are listed known findings",
   technique=SIM + ": seeded source histories, window-level yield inside the backup's snapshot, stream-cut and simulated-network fault injection, LWW model comparison",
   ref="3 C18"),
